@@ -100,7 +100,7 @@ def execute(prop, cfg, rep, dump_name, extra_events=None):
     plan = drv.plan_from_states(states)
     jobs = drv.make_jobs(prop, plan, tier(), rnd_every=3 if tier() == "quick" else 1)   # thorough: every scene also under a random kappa
     with mp.Pool(min(16, len(jobs))) as pool:
-        events = [e for evs in pool.map(drv.run_job, jobs) for e in evs]
+        events = [e for evs in pool.imap_unordered(drv.run_job, jobs, chunksize=1) for e in evs]
     rep.phase("measure")
     events.sort(key=lambda e: e["tid"])
     tv = [drv.tv_event(e) for e in events] + list(extra_events or [])
